@@ -174,8 +174,58 @@ static int trunc_common(int (*real)(int, off_t), int fd, off_t len) {
   if (logf) fprintf(logf, "T %lld %d\n", (long long)len, r);
   return r;
 }
-int ftruncate(int fd, off_t len) { init(); return trunc_common(r_ftruncate, fd, len); }
-int ftruncate64(int fd, off_t len) { init(); return trunc_common(r_ftruncate64 ? r_ftruncate64 : r_ftruncate, fd, len); }
+/* out-of-band changes of the armed file's LENGTH through another descriptor or by path (preallocation, truncation): they are not
+   part of the stdio schedule the model describes, but they decide what an interrupted write leaves behind. Logged as
+   "X <what> <new length> <result>"; never failed by injection. */
+static int fd_is_armed_other(int fd) {
+  char l[64], b[4200];
+  if (!armed || fd < 0 || fd == tracked_fd) return 0;
+  snprintf(l, sizeof l, "/proc/self/fd/%d", fd);
+  ssize_t n = readlink(l, b, sizeof b - 1);
+  if (n <= 0) return 0;
+  b[n] = 0;
+  return strcmp(b, armed_path) == 0;
+}
+static void log_x(const char *what, long long newlen, int r) { if (logf) fprintf(logf, "X %s %lld %d\n", what, newlen, r); }
+int ftruncate(int fd, off_t len) {
+  init();
+  if (fd_is_armed_other(fd)) { int r = r_ftruncate(fd, len); log_x("ftruncate", (long long)len, r); return r; }
+  return trunc_common(r_ftruncate, fd, len);
+}
+int ftruncate64(int fd, off_t len) {
+  init();
+  if (fd_is_armed_other(fd)) { int r = (r_ftruncate64 ? r_ftruncate64 : r_ftruncate)(fd, len); log_x("ftruncate", (long long)len, r); return r; }
+  return trunc_common(r_ftruncate64 ? r_ftruncate64 : r_ftruncate, fd, len);
+}
+int posix_fallocate(int fd, off_t off, off_t len) {
+  static int (*real)(int, off_t, off_t);
+  init(); if (!real) real = dlsym(RTLD_NEXT, "posix_fallocate");
+  int r = real(fd, off, len);
+  if (armed && (fd == tracked_fd || fd_is_armed_other(fd))) log_x("posix_fallocate", (long long)(off + len), r);
+  return r;
+}
+int posix_fallocate64(int fd, off_t off, off_t len) {
+  static int (*real)(int, off_t, off_t);
+  init(); if (!real) real = dlsym(RTLD_NEXT, "posix_fallocate64");
+  if (!real) real = dlsym(RTLD_NEXT, "posix_fallocate");
+  int r = real(fd, off, len);
+  if (armed && (fd == tracked_fd || fd_is_armed_other(fd))) log_x("posix_fallocate", (long long)(off + len), r);
+  return r;
+}
+int fallocate(int fd, int mode, off_t off, off_t len) {
+  static int (*real)(int, int, off_t, off_t);
+  init(); if (!real) real = dlsym(RTLD_NEXT, "fallocate");
+  int r = real(fd, mode, off, len);
+  if (armed && (fd == tracked_fd || fd_is_armed_other(fd))) log_x("fallocate", (long long)(off + len), r);
+  return r;
+}
+int truncate(const char *path, off_t len) {
+  static int (*real)(const char *, off_t);
+  init(); if (!real) real = dlsym(RTLD_NEXT, "truncate");
+  int r = real(path, len);
+  if (armed && strcmp(path, armed_path) == 0) log_x("truncate", (long long)len, r);
+  return r;
+}
 
 /* ---------------------------------------------------------------------------------------------------------------- */
 /* cfitsio API level (opaque pointers: no cfitsio header needed) */
